@@ -26,6 +26,10 @@ pub struct Labels {
     pub payload: HashMap<String, Vec<u8>>,
     /// the honest run absorbed points in compressed form (learnt from the payload lengths)
     pub compressed_points: bool,
+    /// width (4 or 8 bytes) and endianness of the absorbed counts, learnt from the `m` step of a
+    /// run with one commitment
+    pub int_width: usize,
+    pub int_big_endian: bool,
 }
 fn leak(s: &str) -> &'static [u8] {
     Box::leak(s.as_bytes().to_vec().into_boxed_slice())
@@ -36,10 +40,15 @@ impl Labels {
         let mut label = HashMap::new();
         let mut payload = HashMap::new();
         let mut point_len = 0usize;
+        let (mut int_width, mut int_big_endian) = (8usize, false);
         for (m, ev) in runs {
             for (i, (step, l)) in m.labels.iter().enumerate() {
                 if step == "A_I1" {
                     point_len = ev[i].data.len();
+                }
+                if step == "m" {
+                    int_width = ev[i].data.len();
+                    int_big_endian = ev[i].data.last() == Some(&1) && ev[i].data.len() > 1;
                 }
                 let class = match step.find('[') {
                     Some(p) => {
@@ -59,7 +68,15 @@ impl Labels {
             }
         }
         // compressed encodings are 32 or 33 bytes on the supported curves, uncompressed ones 64 or 65
-        Labels { label, payload, compressed_points: point_len > 0 && point_len < 48 }
+        Labels { label, payload, compressed_points: point_len > 0 && point_len < 48, int_width, int_big_endian }
+    }
+    pub fn int(&self, v: u64) -> Vec<u8> {
+        let le = v.to_le_bytes();
+        let mut b: Vec<u8> = le[..self.int_width.min(8)].to_vec();
+        if self.int_big_endian {
+            b.reverse();
+        }
+        b
     }
     pub fn enc<G: AffineRepr>(&self, p: &G) -> Vec<u8> {
         if self.compressed_points {
@@ -273,7 +290,7 @@ pub fn ref_prove_z<G: Cv>(env: &Env<G>, labels: &Labels, prog: &Program, seed: u
         }
     }
     let m = comms.len();
-    cs.t.append_message(labels.l("m"), &(m as u64).to_le_bytes());
+    cs.t.append_message(labels.l("m"), &labels.int(m as u64));
     let n1 = ctx.refcs.gates();
     let cap = env.bp.gens_capacity;
     let gs: Vec<G> = env.bp.G(cap, 1).cloned().collect();
@@ -402,7 +419,7 @@ pub fn ref_prove_z<G: Cv>(env: &Env<G>, labels: &Labels, prog: &Program, seed: u
     let mut gv: Vec<G::Group> = (0..padded).map(|i| gs[i].into_group() * phi(i)).collect();
     let mut hv: Vec<G::Group> = (0..padded).map(|i| hs[i].into_group() * (phi(i) * yipow[i])).collect();
     cs.t.append_message(labels.l("dom-sep:ipp"), &labels.payload["dom-sep:ipp"]);
-    cs.t.append_message(labels.l("ipp n"), &(padded as u64).to_le_bytes());
+    cs.t.append_message(labels.l("ipp n"), &labels.int(padded as u64));
     let (mut lv, mut rv) = (vec![], vec![]);
     let mut len = padded;
     let mut round = 0;
